@@ -15,7 +15,8 @@ LEVEL_TEXT = ('Generated mutation programs (<= 6 ops: Variable updates with cros
               'value, identity of surviving caller objects.'
               ' Arguments also include bare Variables and dicts of Variables in first / last position, objects detached'
               ' and returned inside new objects, and objects detached for good (known finding K3).'
-              ' Round f: raw_array_attr (K11), cached_partial_plain_fn (context leak), generic_pytree_attr (NamedTuple / OrderedDict / registered dataclass attributes under all transforms).')
+              ' Round f: raw_array_attr (K11), cached_partial_plain_fn (context leak), generic_pytree_attr (NamedTuple / OrderedDict / registered dataclass attributes under all transforms).'
+              ' Round g: long_list_attr (list / tuple / int-keyed dict attributes with more than ten entries under all transforms).')
 LEVEL_NOTE = ('Needs the jit/remat JAX compat aliases. Variables all have shape (2,) so value expressions are jit-compatible; '
               'pmap/shard_map are outside the property.')
 TECHNIQUE = 'runtime monitoring: eager-vs-transformed differential on generated mutation programs with canonical-form and identity oracles'
